@@ -41,6 +41,7 @@ type step struct {
 
 type behaviour struct {
 	NG    int    `json:"ng"`
+	Buf   int    `json:"buf"` // DownloadBufferSize of the syncer (0 = 100)
 	Steps []step `json:"steps"`
 }
 
@@ -181,8 +182,12 @@ func (r *run) start() error {
 	ctx, cancel := context.WithCancel(context.Background())
 	r.cl = &client{c: r.c, g: r.g, w: r.w}
 	r.det.resetTracks()
+	buf := r.b.Buf
+	if buf <= 0 {
+		buf = 100
+	}
 	s, err := lastgersync.New(ctx, r.dbPath, r.det, r.cl, gerAddr, r.l1,
-		time.Millisecond, 3, aggkittypes.LatestBlock, time.Millisecond, 100, true, lastgersync.PP)
+		time.Millisecond, 3, aggkittypes.LatestBlock, time.Millisecond, buf, true, lastgersync.PP)
 	if err != nil {
 		cancel()
 		return fmt.Errorf("lastgersync.New: %w", err)
@@ -246,12 +251,23 @@ func (r *run) arrivals() {
 	if r.stuck || fatals.get() != "" {
 		return
 	}
+	// With a small DownloadBufferSize the downloader can also be blocked on the full block channel while the driver is
+	// parked at AddBlockToTrack: then nothing moves any more although the downloader is at no gate (settled = no RPC
+	// and no tracking call for 30 ms with the driver parked).
+	fp, since := "", time.Now()
 	ok := r.g.await(func() bool {
 		if fatals.get() != "" {
 			return true
 		}
 		if r.g.find("poll", "fetch") == nil {
-			return false
+			if r.g.find("track") == nil {
+				return false
+			}
+			if now := fmt.Sprint(r.sent(), r.det.tracks()); now != fp {
+				fp, since = now, time.Now()
+				return false
+			}
+			return time.Since(since) > 30*time.Millisecond
 		}
 		return r.det.tracks() >= r.sent() || r.g.find("track") != nil
 	}, waitFor)
